@@ -209,72 +209,21 @@ def check_parent(ctx, prog, f):
 def check_entities(ctx, prog, f):
     esc = fn1(prog, 'asl::XmlCodec::escape')
     ctx.analysed(esc)
-    # what the encoder writes for each byte: every write to the output stream is evaluated with "the current character"
-    # bound to each of the 256 byte values; a write counts for a byte when no guard of the site (switch label, if chain,
-    # helper result test) excludes that byte
-    G = q.Guarded(esc)
-    cur_ids, cur_texts = set(), set()
-    for s_ in ir.walk_stmts(esc['body']):
-        if s_.get('k') in ('while', 'for', 'if') and s_.get('cv'):
-            if T(esc, s_['cv']['t']).get('bits') == 8:
-                cur_ids.add(s_['cv']['id'])
-    for e in fn_exprs(esc):
-        if e.get('k') in ('un', 'idx') and (e.get('op') == '*' or e.get('k') == 'idx') and T(esc, e.get('t')).get('bits') == 8:
-            cur_texts.add(pe(e))
-        if e.get('k') == 'call' and e.get('op') == '[]' and T(esc, e.get('t')).get('bits') == 8:
-            cur_texts.add(pe(e))
-    writes = []
-    for e in fn_exprs(esc):
-        if e.get('k') == 'call' and (e.get('op') in ('<<', '+=') or (e.get('pq') or '').split('::')[-1] in ('append',)) and e.get('a') \
-                and any(w.get('k') == 'mem' and w.get('f') == '_xml' for w in walk_expr(e.get('obj') or e['a'][0])):
-            writes.append(e)
-    if not writes or len(cur_texts) + len(cur_ids) == 0:
-        raise AnalysisBroken('escape(): output writes or current-character expression not found')
-    writes.sort(key=lambda e: (e['l'], e.get('c', 0)))
-    # bulk form: append(p, strcspn(p, "<reject set>")) copies a run of bytes outside the reject set raw; only bytes of the
-    # reject set ever reach the per-character writes
-    reject = None
-    for w in list(writes):
-        if len(w['a']) == 2:
-            ln = strip(q.expand(esc, w['a'][1]))
-            while ln.get('k') == 'cast':
-                ln = strip(ln['e'])
-            if ln.get('k') == 'call' and ln.get('fn') == 'strcspn' and strip(ln['a'][1]).get('k') == 'str' and reject is None:
-                reject = set(strip(ln['a'][1])['b'])
-                writes.remove(w)
-            else:
-                ctx.undecided('C07.entities', esc['pq'], 'escape:covers every byte special to the decoder', fwhere(esc, w['l']), 'bulk write `%s` with an unrecognised length' % pe(w))
-                return
-    table = {}
-    raw = set()
-    undec = None
-    for bv in range(1, 256):
-        if reject is not None and bv not in reject:
-            raw.add(bv)
-            continue
-        sv = bv - 256 if bv > 127 else bv
-        ev = bounded.Bound(prog, esc, dict((i, sv) for i in cur_ids), dict((t, sv) for t in cur_texts))
-        out = []
-        for w in writes:
-            if not bounded.admitted(ev, G.of(w), G):
-                continue
-            arg = w['a'][-1]
-            try:
-                v = ev.ev(arg)
-            except bytesets.Undecidable as u:
-                undec = 'write `%s` for byte %d: %s' % (pe(w), bv, u)
-                break
-            out.append(v)
-        if undec:
-            break
-        if len(out) == 1 and isinstance(out[0], bytesets.StrVal) and out[0].b.startswith(b'&') and out[0].b.endswith(b';'):
-            table[bv] = out[0].b[1:-1].decode('latin-1')
-        else:
-            raw.add(bv)
-        ctx.evaluations += 1
-    if undec:
-        ctx.undecided('C07.entities', esc['pq'], 'escape:covers every byte special to the decoder', fwhere(esc), undec)
+    # what the encoder writes for each byte (emit.py): every write to the output stream is evaluated with "the current
+    # character" bound to each byte value; a write counts for a byte when no guard of the site excludes that byte
+    import emit
+    try:
+        emitted, reject = emit.emit_table(prog, esc, '_xml')
+    except emit.Unresolved as u:
+        if 'not found' in str(u):
+            raise AnalysisBroken('escape(): %s' % u)
+        ctx.undecided('C07.entities', esc['pq'], 'escape:covers every byte special to the decoder', fwhere(esc), str(u))
         return
+    ctx.evaluations += 255
+    table = {}
+    for bv, out in emitted.items():
+        if out and out[0] == ord('&') and out[-1] == ord(';') and out != [bv]:
+            table[bv] = bytes(out[1:-1]).decode('latin-1')
     effective = dict((b, n) for b, n in table.items() if reject is None or b in reject)
     ctx.info['escaped'] = dict((chr(b), n) for b, n in effective.items())
     # decoder: bytes that are special in FREE and in ATT_VAL
